@@ -134,6 +134,14 @@ class Node:
                         self.added.discard(v)
                     else:
                         self.removed.add(v)
+            elif op[0] == ":":
+                # whole-value assignment: the set becomes exactly the given elements (net effect: the new ones are added, the
+                # missing ones removed); assigning what it already holds still ticks the endpoint
+                new = {int(x) for x in op[1:].split(";") if x}
+                for v in sorted(new - self.val):
+                    self.apply(f"+{v}", t)
+                for v in sorted(self.val - new):
+                    self.apply(f"-{v}", t)
             self.touch(t)
             return True
         if k == "tsw":
